@@ -8,6 +8,7 @@ import (
 	"runtime/debug"
 	"sort"
 	"strconv"
+	"strings"
 	"time"
 )
 
@@ -26,6 +27,7 @@ func main() {
 	only := flag.String("only", "", "re-decide a single obligation key verbosely")
 	verbose := flag.Bool("v", false, "print every obligation")
 	list := flag.Bool("list", false, "list properties with checks")
+	dump := flag.String("dump", "", "debug: print the SSA of the functions whose name contains this string")
 	flag.Parse()
 	if *list {
 		var ids []string
@@ -35,6 +37,19 @@ func main() {
 		sort.Strings(ids)
 		for _, id := range ids {
 			fmt.Println(id)
+		}
+		return
+	}
+	if *dump != "" {
+		prog, err := loadProgram(*repo, nil, "")
+		if err != nil {
+			fmt.Println(err)
+			os.Exit(2)
+		}
+		for _, f := range prog.pkgFuncs() {
+			if strings.Contains(FuncName(f), *dump) {
+				f.WriteTo(os.Stdout)
+			}
 		}
 		return
 	}
